@@ -18,7 +18,8 @@ pub const T_LEADING_DOT: u8 = 3; // .M      -> interface ""
 pub const T_DOUBLE_DOT: u8 = 4; // a..M    -> interface "a."
 pub const T_TRAILING_DOT: u8 = 5; // M.      -> interface "M"
 pub const T_SERVICE: u8 = 6; // org.varlink.service.GetInfo -> interface "org.varlink.service"
-pub const NTARGETS: u8 = 7;
+pub const T_UNKNOWN_IFACE: u8 = 7; // x.y.M  -> interface "x.y", which is NOT registered
+pub const NTARGETS: u8 = 8;
 
 pub fn method_of(t: u8) -> &'static str {
     match t {
@@ -28,6 +29,7 @@ pub fn method_of(t: u8) -> &'static str {
         T_LEADING_DOT => ".M",
         T_DOUBLE_DOT => "a..M",
         T_TRAILING_DOT => "M.",
+        T_UNKNOWN_IFACE => "x.y.M",
         _ => "org.varlink.service.GetInfo",
     }
 }
@@ -40,8 +42,14 @@ pub fn iface_of(t: u8) -> Option<&'static str> {
         T_LEADING_DOT => Some(""),
         T_DOUBLE_DOT => Some("a."),
         T_TRAILING_DOT => Some("M"),
+        T_UNKNOWN_IFACE => Some("x.y"),
         _ => Some("org.varlink.service"),
     }
+}
+
+/// is the interface the method names registered (or the library's own)?
+pub fn is_registered(t: u8) -> bool {
+    iface_of(t).is_some() && t != T_UNKNOWN_IFACE
 }
 
 pub const O_OK: u8 = 0; // implementation returns Ok(())
@@ -125,7 +133,7 @@ pub fn expect(m: &Msg) -> Expect {
         e.closes = true;
         return e;
     }
-    if iface_of(m.target).is_some() {
+    if is_registered(m.target) {
         e.script_replies = m.nreplies as usize;
         match m.outcome {
             O_OK => {}
